@@ -3,6 +3,13 @@ package props
 // model.go: reference models written from the property statements and the
 // package documentation (never from the implementation).
 
+import (
+	"fmt"
+	"strings"
+
+	stackage "github.com/JesseCoretta/go-stackage"
+)
+
 // ListModel is the ordered-list reference for C01/C03/C10/C13/C14/C15.
 type ListModel struct {
 	Elems []any
@@ -133,8 +140,35 @@ func tagValueP(tag int) any {
 		return &x
 	case tag > 0 && tag%13 == 6:
 		return &PubStruct{A: 1, B: "same"}
+	case tag > 0 && tag%9 == 7:
+		return nestedProbe(tag)
 	}
 	return tagValue(tag)
+}
+
+// nestedProbe: a populated Stack used as a plain stored value. Whatever is done to the stack that
+// holds it (reordering, removal, transfer ...), the probe's own content must stay what it was:
+// probeIntact tells (by the probe's ID) whether it still does.
+func nestedProbe(tag int) stackage.Stack {
+	id := "probe" + itoa(tag)
+	return stackage.Or().SetID(id).Push(id+".1", id+".2", id+".3")
+}
+
+func probeIntact(v any) string {
+	s, ok := v.(stackage.Stack)
+	if !ok || !s.IsInit() || !strings.HasPrefix(s.ID(), "probe") {
+		return ""
+	}
+	id := s.ID()
+	if s.Len() != 3 {
+		return fmt.Sprintf("the stored stack %s now holds %d values, it was stored with 3", id, s.Len())
+	}
+	for i := 0; i < 3; i++ {
+		if x, _ := s.Index(i); x != id+"."+itoa(i+1) {
+			return fmt.Sprintf("the stored stack %s now has %#v at position %d, it was stored with %q there", id, x, i, id+"."+itoa(i+1))
+		}
+	}
+	return ""
 }
 
 func itoa(i int) string {
